@@ -20,16 +20,16 @@ CHECKS = {
          "stores/deletes/flushes (immediate, delayed) over up to 6 keys with advances around the flush deadline; all keys probed after every command.", "as C01", "6/C08"),
  "C11": ("exploration", "independent response parser over generated histories (round-trip/validity oracle)",
          "every response emitted during generated histories (all opcodes, all outcomes) is re-parsed by an independent parser and checked against its request.", "the protocol status table and body layout are taken from the memcached binary protocol document", "6/C11"),
- "C03": ("exploration", "schedule enumeration (harness-owned baton scheduler at the Cache trait boundary) + linearizability search against the reference model",
+ "C03": ("exploration", "schedule enumeration (harness-owned baton scheduler at the Cache trait boundary) + linearizability search against the reference model; OS-thread stress with invariant oracles",
          "small concurrent programs (2-3 clients, 1-2 commands) on one key from every initial state are executed under every interleaving of the store's trait-level steps (stateless DFS, exhaustive up to the leaf cap); each execution must be explained by some sequential order consistent with program and real-time order.",
          "interleavings inside one MemoryStore method are out of the scheduler's reach (OS-scheduled stress only); DashMap shard locking trusted", "6/C03"),
- "C04": ("exploration", "schedule enumeration + linearizability search (read-modify-write commands)",
+ "C04": ("exploration", "schedule enumeration + linearizability search (read-modify-write commands); OS-thread and multi-listener TCP stress with sum/multiset invariants",
          "2-3 clients with one RMW or plain command each, every initial state, every interleaving at trait-call granularity; blocked clients (key locks) are detected through the kernel thread state so that lock-based implementations are schedulable.",
          "as C03", "6/C04"),
- "C09": ("exploration", "differential testing over read segmentations + independent framer",
+ "C09": ("exploration", "differential testing over read segmentations + independent framer (proptest streams, exhaustive cut plans, socket phase, libFuzzer campaign in the thorough tier)",
          "generated pipelines are decoded under every single cut, byte-at-a-time, boundary-aligned cuts, random cut sets and (thorough) all pairs of cuts; executed requests, responses, close point and store dump must equal the one-chunk run and every request must consume exactly 24+body bytes.",
          "decoder level with a harness-owned buffer mirroring the connection's read loop; socket-level phase listed separately in the evidence when present", "6/C09"),
- "C10": ("exploration", "boundary-grid enumeration + mutation fuzzing of byte streams, decode+execute+encode under catch_unwind with overflow checks",
+ "C10": ("exploration", "boundary-grid enumeration + mutation fuzzing of byte streams (proptest and libFuzzer), decode+execute+encode under catch_unwind with overflow checks; socket phases with a process-wide panic recorder and a heap-growth bound",
          "the full header boundary grid (exhaustive in the thorough tier) and generated/mutated streams are executed in-process; oracles: no panic, bounded decode loop, invalid headers never executed, bounded buffer capacity, parseable correlated responses.",
          "in-process (socket part covered by the L3 checks); hangs inside one call are caught by a watchdog + subprocess confirmation", "6/C10"),
  "C14": ("exploration", "model-based workloads under eviction with a stored-bytes invariant; strict and attributed generator pair around the known accounting defect",
@@ -44,7 +44,7 @@ CHECKS = {
  "C19": ("exploration", "metamorphic testing: paired runs with toggled loud/quiet opcodes",
          "the same resolved command history is run all-loud and with a generated subset switched to quiet opcodes on identical fresh stacks; untouched positions, per-position dumps and a walk through all expiry instants must be byte-identical; switched positions must follow the quiet rules.",
          "CAS values are compared literally (deterministic CAS source)", "6/C19"),
- "C12": ("exploration", "model-based pipelines over loopback TCP with enforced segmentation; per-connection reference model",
+ "C12": ("exploration", "model-based pipelines over loopback TCP with enforced segmentation; per-connection reference model; back-pressure and busy-connection scenarios",
          "generated pipelines (all opcodes loud/quiet, unimplemented opcodes, quit/quitq anywhere) over a real socket to an in-process server; responses must be in request order, present exactly when the model says so, and nothing after quit may be answered or executed (store read through an in-process side channel).",
          "loopback, in-process server (MemcacheTcpServer::run on its own runtime); completion by sentinel noop or EOF", "6/C12"),
  "C13": ("fault_enumeration", "enumeration of (limit x body size x opcode x pipeline position x split of the oversized frame) on loopback TCP",
@@ -95,7 +95,9 @@ def main():
         },
         "engines": [
             {"name": "vcheck", "path": "/verif/harness", "serves_properties": sorted(CHECKS.keys()),
-             "kind_free_text": "Rust binary: proptest TestRunner shards (seeded from VERIF_SEED), reference model, independent wire parser, in-process wire-level execution"},
+             "kind_free_text": "Rust library + binary: proptest TestRunner shards (seeded from VERIF_SEED), reference model kept as a set of alternatives, independent wire parser, in-process wire-level execution (L1), baton scheduler + schedule DFS + linearizability search (L2), OS-thread stress phases, in-process loopback server with chunk-exact client (L3), real memcrsd child processes (L4)"},
+            {"name": "libfuzzer", "path": "/verif/fuzz", "serves_properties": ["C09", "C10"],
+             "kind_free_text": "cargo-fuzz crate (libfuzzer-sys, nightly, ASan) with targets c10_exec and c09_split; the semantic oracles live in harness/src/fuzzentry.rs; run by the thorough tiers of C09/C10, skipped with a note if the nightly toolchain is unavailable"},
         ],
         "checks": checks,
         "not_applicable": na,
